@@ -62,7 +62,7 @@ var catalogue = []Item{
 	{ID: "rune-constant", Core: "x := 'a'\n\tr = uint64(x)", NoCtx: true},
 	{ID: "string-with-quote", Core: "s := \"a\\\"b\"\n\tr = uint64(len(s))", NoCtx: true},
 	{ID: "string-multiline", Core: "s := `a\nb`\n\tr = uint64(len(s))", NoCtx: true},
-	{ID: "copy-named-slice", Decls: "type Bs%N% []byte", Setup: "var d Bs%N% = make([]byte, 3)\n\tsrc := make([]byte, 2)\n\tsrc[0] = 9", Core: "r = uint64(copy(d, src)) + uint64(d[0])", Known: "c02NamedTypeCrash"},
+	{ID: "copy-named-slice", Decls: "type Bs%N% []byte", Setup: "var d Bs%N% = make([]byte, 3)\n\tsrc := make([]byte, 2)\n\tsrc[0] = 9", Core: "n := copy(d, src)\n\tr = uint64(n) + uint64(d[0])", Known: "c02NamedTypeCrash"},
 	{ID: "slice-of-named-slice", Decls: "type Ws%N% []uint64", Setup: "var d Ws%N% = make([]uint64, 3)", Core: "t := d[1:]\n\tr = uint64(len(t))", NoCtx: true, Known: "c02NamedTypeCrash"},
 	{ID: "empty-literal-named-slice", Decls: "type Es%N% []uint64", Core: "d := Es%N%{}\n\tr = uint64(len(d))", NoCtx: true, Known: "c02NamedTypeCrash"},
 	{ID: "deref-named-pointer", Decls: "type Pp%N% *uint64", Setup: "x := new(uint64)\n\t*x = 4\n\tvar p Pp%N% = x", Core: "r = *p", Known: "c02NamedTypeCrash"},
